@@ -430,6 +430,49 @@ func init() {
 		Assumptions: []string{"os.WriteFile either stores the bytes or fails; os.ReadFile returns the stored bytes; crypto/rand.Read fills the slice with arbitrary bytes"},
 		Trusted:     append(append([]string{}, commonTrusted...), "file-system stub (engine/intr_cli.go): one symbolic entry per path, every call recorded as an event", "encoding/base64 contract b64 / unb64 (see C09: real code checked for lengths 0..6)"),
 	}
+	atlasTrusted := append(append([]string{}, commonTrusted...),
+		"HTTP boundary (engine/intr_http.go): http.Client.Do = one round trip of the transport; digest.Transport = unauthenticated request, then one authenticated retry iff 401 + Digest challenge, password used only inside the digest hash; the fake endpoint is harness code (harness/zz_verif_h_atlas.go) executed symbolically as the base transport",
+		"connstring.Parse / net.SplitHostPort / json.Unmarshal(AtlasClusterInfo) as stubs: arbitrary scheme, 1..N hosts with or without port, arbitrary standard string; io.ReadAll / io.Copy deliver the scripted body or fail after a prefix; os.CreateTemp / os.Remove recorded as events")
+	atlasJobs := func(tier string) []*Job {
+		p := map[string]string{"cs.mayFail": "yes", "createTempMayFail": "yes"}
+		if tier == "thorough" {
+			p["cs.maxHosts"] = "3"
+		}
+		return []*Job{
+			{Name: "DownloadClusterLogs", Harness: "H_atlas", Lines: map[string]*Template{}, Params: p},
+			{Name: "window", Harness: "H_c16_dates", Lines: map[string]*Template{}, Params: map[string]string{}},
+		}
+	}
+	atlasBounds := map[string]any{
+		"hosts":   "1..2 member hosts (thorough: 3), each with or without port; SRV scheme with one host",
+		"server":  "every answer chosen by the solver: digest challenge or none; cluster lookup ok / 404 / transport error / unparsable body / unparsable connection string; per host ok / 500 / transport error / body cut mid-transfer; os.CreateTemp may fail",
+		"inputs":  "project id, cluster name, public and private key: arbitrary URL-safe tokens; start / end: arbitrary non-negative integers; response bodies arbitrary strings",
+		"outside": "TLS, DNS / SRV resolution, net/http internals, the digest library's own code (contract), real gzip payloads",
+	}
+	for _, id := range []string{"C16", "C17", "C20"} {
+		title := map[string]string{"C16": "Atlas mode fetches exactly the requested logs and redacts each into its own file", "C17": "Raw downloaded logs never outlive the run", "C20": "The Atlas private key never leaves the process except as a digest response"}[id]
+		pid := id
+		propChecks[id] = &PropCheck{
+			ID: id, Title: title,
+			Jobs: func(e *Engine, tier string) []*Job {
+				jobs := atlasJobs(tier)
+				if pid == "C16" || pid == "C17" {
+					jobs = append(jobs, atlasMainJob())
+				}
+				return jobs
+			},
+			Post: map[string]func(cr *checkRun){"C16": atlasLoopPost("C16"), "C17": atlasLoopPost("C17"), "C20": nil}[pid],
+			Functions: []string{"DownloadClusterLogs", "getAtlasClusterInfo", "downloadClusterLogsForHost", "DeleteClusterLogs", "GetHostsFromConnectionString", "GetStartAndEndDates", "NewAtlasClient"},
+			Bounds:    atlasBounds,
+			OnlyObligations: map[string][]string{
+				"C16": {"request", "one-file-per-host", "bytes-stored-verbatim", "only-the-returned-files-exist", "default-window", "start-before-end", "given-window", "delete-removes-all"},
+				"C17": {"temp-files-left-after-failure", "no-files-returned-on-failure", "delete-removes-all", "only-the-returned-files-exist"},
+				"C20": {"private-key-", "no-credentials-without-challenge", "public-key-without-challenge"},
+			}[pid],
+			Assumptions: []string{"the three Atlas properties share one harness (H_atlas); each check counts only the obligations of its own property"},
+			Trusted:     atlasTrusted,
+		}
+	}
 	propChecks["C01"] = &PropCheck{
 		ID:    "C01",
 		Title: "Sensitive literal values never survive redaction (full-redaction mode)",
